@@ -5,6 +5,7 @@ observation of Panel.lb / ConeCyl.lb outputs; oracle O5 (dense LAPACK on the
 active sub-matrices, backward-error residuals)."""
 import numpy as np
 import scipy.sparse as sp
+import scipy.linalg
 
 from .. import gen, monitors
 from ..core import Case
@@ -16,7 +17,7 @@ VAL_TOL = 1e-7     # relative agreement with the reference multiplier
 
 def plan(tier):
     n = 320 if tier == 'quick' else 12000
-    return dict(suite_monitor=True, n_cases=n, shards=16, min_nontrivial=n // 3, min_hits={'lb': n // 2}, min_tags={'src:shell_method': n // 40, 'src:panel_method': n // 40, 'src:assembly_free': n // 40, 'src:bay_free': n // 80},
+    return dict(suite_monitor=True, n_cases=n, shards=16, min_nontrivial=n // 3, min_hits={'lb': n // 2}, min_tags={'src:shell_method': n // 40, 'src:panel_method': n // 40, 'src:assembly_free': n // 40, 'src:bay_free': n // 80, 'load:reversal_supercritical': n // 40, 'k:spring_net': n // 20},
                 watchdog_s=1500 if tier == 'quick' else 7200,
                 rule='random symmetric pairs (K PD on a random active subset, others null; KG negative semidefinite / '
                      'indefinite / low-rank / banded, scaled sub-critical by a random margin 1.05..50), sizes 5..%d, '
@@ -108,6 +109,9 @@ def random_pair(rng, tier):
     cond = 10 ** rng.uniform(1, 6)
     band = int(rng.integers(1, 6)) if rng.random() < 0.4 else None
     Ka = eig.random_spd(rng, na, cond, band)
+    net = bool(rng.random() < 0.15)
+    if net:
+        Ka = eig.spring_net(rng, na)      # lumped spring network: columns of the unrestrained nodes sum to exactly zero
     kind = str(rng.choice(['nsd', 'indef', 'lowrank', 'banded', 'diag']))
     if kind == 'nsd':
         Ga = -eig.random_spd(rng, na, 10 ** rng.uniform(1, 4))
@@ -129,9 +133,11 @@ def random_pair(rng, tier):
     if lam_pos.size:
         Ga = Ga * (lam_pos.min() / margin)
     us = gen.unit_scale(rng)
+    if net:
+        us = float(2.0 ** rng.integers(-20, 21)) if rng.random() < 0.3 else 1.0
     K = sp.csr_matrix(eig.embed(Ka, n, act) * us)
     G = sp.csr_matrix(eig.embed(Ga, n, act) * us)
-    desc = dict(src='random', n=n, n_active=na, cond=cond, band=band, kg_kind=kind, margin=margin, unit_scale=us)
+    desc = dict(src='random', n=n, n_active=na, cond=cond, band=band, kg_kind=kind, margin=margin, unit_scale=us, spring_net=net)
     return K, G, desc, na
 
 
@@ -246,6 +252,8 @@ def run_case(rng, tier, idx):
     from compmech.analysis import lb
     # 70% random pairs; the package sources take turns (deterministic in the case index, so every source is covered)
     mode = 'random' if idx % 10 < 7 else ['panel_free', 'panel_method', 'shell_method', 'assembly_free', 'bay_free'][(idx // 10 * 3 + idx % 10 - 7) % 5]
+    if idx % 10 == 6:
+        mode = 'panel_method'      # 64% random pairs, 10% + 6% the panels' own copy of the solver
     if mode == 'shell_method':
         return case_shell(rng, tier)
     if mode in ('assembly_free', 'bay_free'):
@@ -260,6 +268,8 @@ def run_case(rng, tier, idx):
         c = Case(desc)
         c.tag('src:random', 'kg:' + desc['kg_kind'], 'sparse' if sparse else 'dense',
               'nullcols' if na < desc['n'] else 'full')
+        if desc.get('spring_net'):
+            c.tag('k:spring_net')
         K0, G0 = K.copy(), G.copy()
         monitors.drain('lb')
         try:
@@ -303,10 +313,42 @@ def run_case(rng, tier, idx):
         return c
     # package matrices
     p, desc = panel_pair(rng, tier)
+    if mode != 'panel_free' and rng.random() < 0.6:
+        # a sub-critical reference load whose reversal is super-critical (mild compression along one axis, strong tension along the
+        # other, magnitudes tied to the panel's own critical loads): negative multipliers inside (-1, 0) next to positive ones > 1
+        try:
+            ax = int(rng.integers(0, 2))
+            N = [0.0, 0.0, float(rng.choice([0.0, 0.0, 0.3, -0.3]))]
+            N[ax] = -1.0; N[1 - ax] = float(10 ** rng.uniform(0.3, 2))
+            K_ = p.calc_k0(silent=True).toarray()
+            act_ = eig.active_set(K_)
+            for attempt in range(3):
+                p.Nxx, p.Nyy, p.Nxy = N
+                G_ = p.calc_kG0(silent=True).toarray()
+                mu = scipy.linalg.eigh(-G_[np.ix_(act_, act_)], K_[np.ix_(act_, act_)], eigvals_only=True)
+                # both signs really present (not round-off of the null part)
+                if mu.max() > 1e-6 * np.abs(mu).max() and mu.min() < -1e-6 * np.abs(mu).max():
+                    lpos, lneg = 1.0 / mu.max(), -1.0 / mu.min()
+                    ratio = lneg / lpos
+                    if ratio < 0.7:
+                        u = float(rng.uniform(1.2, min(8.0, 0.95 / ratio)))
+                        s_ = lpos / u
+                        N = [float(x * s_) for x in N]
+                        p.Nxx, p.Nyy, p.Nxy = N
+                        desc['load'] = N
+                        desc['reversal'] = {'smallest_positive': u, 'negative_closest_to_zero': -ratio * u}
+                        break
+                N[1 - ax] *= 10.0
+            else:
+                p.Nxx, p.Nyy, p.Nxy = desc['load']
+        except Exception as e:
+            desc['reversal_rejected'] = repr(e)[:100]
     k = int(rng.integers(1, 8))
     desc.update(k=k, sparse_solver=sparse, mode=mode)
     c = Case(desc)
     c.tag('src:' + mode, 'model:' + desc['panel']['model'], 'sparse' if sparse else 'dense')
+    if 'reversal' in desc:
+        c.tag('load:reversal_supercritical')
     try:
         if mode == 'panel_free':
             us = gen.unit_scale(rng)
